@@ -190,11 +190,29 @@ def run_triple(case):
         if set(d) != (sa | sb) - sc or any(v != 1 for v in d.values()):
             bad('sub', str((A | B) - C), sorted((sa | sb) - sc))
         i = cells_of((A | B) & C)
-        if set(i) != (sa | sb) & sc:
-            bad('and', str((A | B) & C), sorted((sa | sb) & sc))
+        # each cell once per covering area of the multi-area operand
+        if i != collections.Counter(list(sa & sc) + list(sb & sc)):
+            bad('and', str((A | B) & C), 'cells of (a n c) and of (b n c), each area counted')
+        i2 = cells_of(C & (A | B))
+        if i2 != collections.Counter(list(sa & sc) + list(sb & sc)):
+            bad('and', str(C & (A | B)), 'cells of (c n a) and of (c n b), each area counted')
+        import numpy as np
+        if sa & sc or sb & sc:
+            v = withvals((A | B) & C, n).value
+            exp = sorted([R.val(*x) for x in sa & sc] + [R.val(*x) for x in sb & sc])
+            if sorted(np.ravel(v).tolist()) != exp:
+                bad('and-value', sorted(np.ravel(v).tolist()), exp)
     except Exception as e:
         bad('sub-exc', type(e).__name__, 'no exception')
-    return result(3, ['triple' + (':fail' if fails else '')], fails)
+    ex = 6
+    if (ia * 31 + ib * 7 + ic) % 9 == 0 and (sa & sc or sb & sc):
+        ex += 1
+        f = '=SUM((%s,%s) %s)' % (R.name(a), R.name(b), R.name(c))
+        got = eval_on_grid(f)
+        want = N(sum(R.val(*x) for x in sa & sc) + sum(R.val(*x) for x in sb & sc))
+        if got != want:
+            bad('formula', got, want)
+    return result(ex, ['triple' + (':fail' if fails else '')], fails)
 
 
 WHOLE = ['A:A', 'B:C', 'A:D', '1:1', '2:3', '1:4', 'C:C', '4:4']
